@@ -27,5 +27,9 @@ var corpus = [][]string{
 	{"type cat top-hash-bounds", "def -", "dec v 000102030405060708090a0b0c0d0e0f101112131415161718191a1b1c1d1e1f"},
 	// duplicate map keys in sorted position must be rejected (else two byte strings decode to one map)
 	{"type cat top-map", "def -", "dec v 0200010000010000", "dec v 020001000001000105", "dec v 01000100020506"},
+	// settings priority: an explicit lexicalOrdering=false in the per-call option wins over the registered true
+	{"type cat prio-lex-off", "def -", "enc n (l (x 62) (x 61))", "enc v (l (x 62) (x 61))", "enc v (l (x 61) (x 62))", "dec n 02010062010061"},
+	{"type cat prio-sorted-rules-off", "def -", "enc v (l (x 62) (x 61) (x 61))"},
+	{"type cat prio-code", "def -", "enc v (l (n 5))", "dec v 4d00000005000000", "dec v 0905000000"},
 	{"type cat top-arr", "def -", "dec v 03010002000300", "dec v 0201000200", "dec v 040100020003000400"},
 }
